@@ -144,7 +144,7 @@ func RunConv(c ConvCase) *Sx {
 		phases, served = runTLSConvImpl(s, be, c)
 	} else {
 		sc := NewScriptConn(c.Phases[0])
-		sc.OnWrite = func(p []byte) { be.AddWire(p); be.waitClose(); be.SyncPoint() }
+		sc.OnWrite = func(p []byte) { be.AddWire(p); be.maybeCloseWire(p); be.waitClose(); be.SyncPoint() }
 		sc.OnRead = be.SyncPoint
 		be.Baseline = runtime.NumGoroutine() + 2 // the connection goroutine and Shutdown waiter (Serve itself returns early)
 		if c.CloseAt != nil {
